@@ -283,20 +283,21 @@ def gen_ctors(src, names) -> str:
             else:
                 _err(CMP, fn, f'default of {p} outside the grammar')
         guards = []
+        guards_le = []
         wchecks = []
         ret = None
         for s in fn.body:
             if isinstance(s, ast.Expr) and isinstance(s.value, ast.Constant):
                 continue
             if (isinstance(s, ast.If) and not s.orelse and len(s.body) == 1 and isinstance(s.body[0], ast.Raise)
-                    and isinstance(s.test, ast.Compare) and len(s.test.ops) == 1 and isinstance(s.test.ops[0], ast.Lt)
+                    and isinstance(s.test, ast.Compare) and len(s.test.ops) == 1 and isinstance(s.test.ops[0], (ast.Lt, ast.LtE))
                     and isinstance(s.test.left, ast.Name) and s.test.left.id in pnames
                     and isinstance(s.test.comparators[0], ast.Constant) and s.test.comparators[0].value == 0):
                 exc = s.body[0].exc
                 excname = exc.func.id if isinstance(exc, ast.Call) and isinstance(exc.func, ast.Name) else None
                 if excname != 'ValueError':
                     _err(CMP, s, 'guard raises something other than ValueError')
-                guards.append(lean_str(s.test.left.id))
+                (guards if isinstance(s.test.ops[0], ast.Lt) else guards_le).append(lean_str(s.test.left.id))
             elif (isinstance(s, ast.Expr) and isinstance(s.value, ast.Call) and isinstance(s.value.func, ast.Name)
                   and s.value.func.id == 'periodic_function' and len(s.value.args) == 1 and not s.value.keywords
                   and isinstance(s.value.args[0], ast.Name) and s.value.args[0].id in pnames):
@@ -329,7 +330,7 @@ def gen_ctors(src, names) -> str:
             _err(CMP, fn, f'unexpected Component keywords {sorted(kws)}')
         recs.append(f'{{ name := {lean_str(name)}, kind := {lean_str(kws["type"].value)},\n'
                     f'          params := {lean_list(params, ", ")},\n'
-                    f'          guards := {lean_list(guards, ", ")},\n'
+                    f'          guards := {lean_list(guards, ", ")}, guardsLE := {lean_list(guards_le, ", ")},\n'
                     f'          wavetypeChecks := {lean_list(wchecks, ", ")},\n'
                     f'          values := {lean_list(values, ", ")} }}')
     return 'def ctors : List CtorSpec :=\n  ' + lean_list(recs, ',\n   ')
